@@ -23,6 +23,10 @@ var (
 	}()
 	profC07 = eng.ProfileFull("C07", map[string]int{"sell": 14, "buy": 22, "setFeeParams": 5, "updSell": 6, "addDenom": 3, "faucet": 2, "put": 3, "take": 3})
 	profC11 = eng.ProfileFull("C11", map[string]int{"put": 20, "take": 16, "basketCreate": 7, "updDateCriteria": 4, "createBatch": 12, "block": 10, "bankSend": 4})
+	profC08 = eng.ProfileFull("C08", map[string]int{"updClassAdmin": 6, "updClassIssuers": 6, "updClassMeta": 4, "updProjectAdmin": 5, "updProjectMeta": 4, "updBatchMeta": 5,
+		"seal": 4, "mint": 6, "updCurator": 5, "setAllowlist": 3, "addCreator": 3, "removeCreator": 3, "createClass": 6, "createProject": 5, "createBatch": 7,
+		"updSell": 6, "cancelSell": 5, "bridgeReceive": 5, "defineResolver": 4, "registerResolver": 6, "anchor": 1, "unimplemented": 2,
+		"addCreditType": 2, "updClassFee": 2, "addBridgeChain": 2, "removeBridgeChain": 2, "updBasketFee": 2, "updDateCriteria": 3, "addDenom": 2, "removeDenom": 2, "setFeeParams": 2, "sendFromPool": 3})
 	profC12 = eng.ProfileFull("C12", map[string]int{"sell": 16, "updSell": 10, "buy": 10, "block": 18, "cancelSell": 3})
 )
 
@@ -36,6 +40,55 @@ func monsC13() []eng.Monitor { return []eng.Monitor{&mon.C13{}} }
 func monsC14() []eng.Monitor { return []eng.Monitor{&mon.C14{}} }
 func monsC07() []eng.Monitor { return []eng.Monitor{&mon.C07{}} }
 func monsC11() []eng.Monitor { return []eng.Monitor{&mon.C11{}} }
+func monsC08() []eng.Monitor { return []eng.Monitor{&mon.C08{}} }
+func profC09() *eng.Profile {
+	p := eng.ProfileFull("C09", map[string]int{"anchor": 4, "attest": 4, "defineResolver": 4, "registerResolver": 4, "roundtrip": 6, "updClassFee": 2, "updBasketFee": 2, "setFeeParams": 2})
+	p.EqualDatesPct = 3
+	return p
+}
+
+// C09's monitor owns the custom "roundtrip" step, so profile and monitor are built together.
+func c09() (*eng.Profile, func() []eng.Monitor) {
+	p := profC09()
+	var cur *mon.C09
+	p.Custom = map[string]func(w *eng.World){"roundtrip": func(w *eng.World) { cur.RoundTripStep(w) }}
+	return p, func() []eng.Monitor { cur = &mon.C09{}; return []eng.Monitor{cur} }
+}
+
+var profC16 = func() *eng.Profile {
+	p := &eng.Profile{Name: "C16", Weights: map[string]int{"anchor": 12, "attest": 8, "defineResolver": 4, "registerResolver": 8, "block": 6, "restart": 1, "createClass": 1},
+		Prelude: []string{"anchor", "anchor", "defineResolver", "block"}, HashPool: 14}
+	p.Hashers = []eng.HasherSpec{{}, {Kind: "minlen", MinLen: 1}, {Kind: "minlen", MinLen: 8}, {Kind: "minlen", MinLen: 2}}
+	for _, k := range []int{1, 2, 3, 16} {
+		for _, ml := range []int{1, 4, 7, 8} {
+			p.Hashers = append(p.Hashers, eng.HasherSpec{Kind: "weak", K: k, MinLen: ml}, eng.HasherSpec{Kind: "weak", K: k, MinLen: ml, Repeat: true})
+		}
+	}
+	return p
+}()
+
+func monsC16() []eng.Monitor { return []eng.Monitor{&mon.C16{}} }
+func c17() (*eng.Profile, func() []eng.Monitor) {
+	p := eng.ProfileFull("C17", map[string]int{"query": 30, "get": 8, "anchor": 4, "attest": 5, "defineResolver": 4, "registerResolver": 5,
+		"createClass": 5, "createProject": 6, "createBatch": 8, "sell": 10, "updClassAdmin": 2, "updProjectAdmin": 2})
+	p.PrefixIDs = true
+	var cur *mon.C17
+	p.Custom = map[string]func(w *eng.World){"query": func(w *eng.World) { cur.QueryStep(w) }, "get": func(w *eng.World) { cur.SingleStep(w) }}
+	return p, func() []eng.Monitor { cur = &mon.C17{}; return []eng.Monitor{cur} }
+}
+
+var profC18 = func() *eng.Profile {
+	p := &eng.Profile{Name: "C18", Weights: map[string]int{"updClassFee": 8, "updBasketFee": 8, "setFeeParams": 10, "setAllowlist": 3, "addCreator": 3, "removeCreator": 2,
+		"addDenom": 3, "removeDenom": 2, "createClass": 6, "basketCreate": 6, "createProject": 2, "createBatch": 3, "sell": 3, "buy": 4, "put": 2, "take": 2, "block": 3, "faucet": 1, "addCreditType": 1},
+		Prelude: []string{"createClass", "createProject", "createBatch"}, RemapAny: true}
+	p.AllowZeroFeeGenesis = true
+	p.AllowEmptyDenoms = true
+	p.HostilePct = 30
+	p.GenesisFeeRates = []string{"", "0", "0.0", "0.000001", "0.01", "0.1", "1", "1.5", "2", "0.3333333333333333333333333333333333", "0.2999999999999999999999999999999999995", "1e-2"}
+	return p
+}()
+
+func monsC18() []eng.Monitor { return []eng.Monitor{&mon.C18{}} }
 func monsC12() []eng.Monitor { return []eng.Monitor{&mon.C12{}} }
 
 func TestC01(t *testing.T)        { stateful(t, profC01, monsC01) }
@@ -81,3 +134,23 @@ func TestC07Replay(t *testing.T)  { replayStateful(t, "C07", profC07, monsC07) }
 func TestC11(t *testing.T)        { stateful(t, profC11, monsC11) }
 func TestC11Witness(t *testing.T) { witnessStateful(t, "C11", profC11, monsC11) }
 func TestC11Replay(t *testing.T)  { replayStateful(t, "C11", profC11, monsC11) }
+
+func TestC08(t *testing.T)        { stateful(t, profC08, monsC08) }
+func TestC08Witness(t *testing.T) { witnessStateful(t, "C08", profC08, monsC08) }
+func TestC08Replay(t *testing.T)  { replayStateful(t, "C08", profC08, monsC08) }
+
+func TestC09(t *testing.T)        { p, mk := c09(); stateful(t, p, mk) }
+func TestC09Witness(t *testing.T) { p, mk := c09(); witnessStateful(t, "C09", p, mk) }
+func TestC09Replay(t *testing.T)  { p, mk := c09(); replayStateful(t, "C09", p, mk) }
+
+func TestC16(t *testing.T)        { stateful(t, profC16, monsC16) }
+func TestC16Witness(t *testing.T) { witnessStateful(t, "C16", profC16, monsC16) }
+func TestC16Replay(t *testing.T)  { replayStateful(t, "C16", profC16, monsC16) }
+
+func TestC17(t *testing.T)        { p, mk := c17(); stateful(t, p, mk) }
+func TestC17Witness(t *testing.T) { p, mk := c17(); witnessStateful(t, "C17", p, mk) }
+func TestC17Replay(t *testing.T)  { p, mk := c17(); replayStateful(t, "C17", p, mk) }
+
+func TestC18(t *testing.T)        { stateful(t, profC18, monsC18) }
+func TestC18Witness(t *testing.T) { witnessStateful(t, "C18", profC18, monsC18) }
+func TestC18Replay(t *testing.T)  { replayStateful(t, "C18", profC18, monsC18) }
